@@ -1,5 +1,6 @@
 SPECIFICATION Spec
 CONSTANTS Growth = 1 Mode = "bytes" MaxBits = 16 Wide = FALSE Lean = FALSE
+INVARIANT UniverseLegal
 INVARIANT RoundTrip
 INVARIANT LengthInBLS
 INVARIANT WholeBytes
